@@ -164,7 +164,9 @@ PROPS = {
         "explanation": "PROVED for all inputs (z3): is_overlap is true exactly when the open interiors of the rectangles intersect; waveage's "
         "mask is, at every position/frequency/direction, celerity(f, depth) <= agefac*wspd*cos(dir - wdir) (celerity by its own contract: "
         "1.56/f or omega/k with the Chen-Thomson k); _interp_freq returns, for any number of frequencies, the linear interpolant of "
-        "the two bracketing bins with the cutoff as its single frequency coordinate. BOUNDED (run-time contracts of the real accessor methods with independent oracles on "
+        "the two bracketing bins with the cutoff as its single frequency coordinate; bbox (2x3 bins, two boxes with symbolic limits, all values: "
+        "ValueError exactly for overlapping/empty boxes, else every box exactly its bins and the remainder last) and ptm4 (2x3 bins, symbolic "
+        "leading dimension, winds, depths: sea iff celerity <= wind component, swell the complement) executed symbolically. BOUNDED (run-time contracts of the real accessor methods with independent oracles on "
         "seeded datasets with rolled/descending direction storage, every run): ptm4 assigns each bin by that rule, parts disjoint and summing "
         "to the input, coordinates sorted; bbox gives each box exactly its bins (omitted limits = grid extremes), remainder last, overlapping "
         "boxes rejected, query dicts untouched; split keeps the band unchanged, removes the rest, inserts the linear interpolant at off-grid "
@@ -212,13 +214,14 @@ PROPS = {
         "explanation": "PROVED for any number of stations (symbolic extent, z3): Coordinates.distance equals sqrt(dlon^2 + dlat^2) with the "
         "longitude difference taken the short way round (min(|d| mod 360, 360 - ...)) at every station; Coordinates.nearest returns an index in "
         "range together with that station's distance; _swap_longitude_convention maps every longitude to the congruent value of the other "
-        "convention. BOUNDED (run-time contracts with a brute-force oracle on seeded layouts around the 0 and "
+        "convention; sel_nearest with one query point and any number of stations returns a station within tolerance such that no station is "
+        "closer, and raises only when every station is beyond the tolerance. BOUNDED (run-time contracts with a brute-force oracle on seeded layouts around the 0 and "
         "180 meridians, both conventions for dataset and query, lists and arrays, every run): nearest returns a station at minimum distance or "
         "fails beyond the tolerance; idw returns the 1/d weighted mean of up to max_sites stations in range (the station itself at zero distance, "
         "missing with fewer than two); bbox returns exactly the stations inside [min-tol, max+tol] in the query's convention; longitudes are "
         "reported in the query's convention; dataset and query arrays are left untouched.",
         "trusted_base": ["independent oracle in contracts/selection.py"],
-        "assumptions": ["'no station is closer' for nearest is checked on concrete replays only (argmin over sqrt terms not discharged)",
+        "assumptions": ["several query points, idw and bbox selection: bounded replays only",
                         "the per-query loops of sel_* are not brought under invariants: bounded replays only"],
         "technique": "contract-based deductive verification of the distance kernel (symbolic number of stations) + run-time contracts with a brute-force oracle (bounded)",
     },
